@@ -661,7 +661,14 @@ class EltoritoBootCatalog:
             self.state = self.EXPECTING_SECTION_HEADER_OR_DONE
         else:
             val = bytes(bytearray([valstr[0]]))
-            if val == b'\x00':
+            if val in (b'\x88', b'\x00') and self.sections and len(self.sections[-1].section_entries) < self.sections[-1].num_section_entries:
+                # The last section header still expects entries, so this is
+                # one of them; a non-bootable entry has a boot indicator of 0,
+                # which must not be mistaken for the end of the catalog.
+                secentry = EltoritoEntry()
+                secentry.parse(valstr)
+                self.sections[-1].add_parsed_entry(secentry)
+            elif val == b'\x00':
                 # An empty entry tells us we are done parsing El Torito.  Do
                 # some sanity checks.
                 last_section_index = len(self.sections) - 1
